@@ -4,8 +4,11 @@
    declaration i has a lambda predecessor of output type [d_ty] producing [src_i]
    (Invoke) resp. the chunk list [chunks_i] (Stream), and the field mappings [d_maps];
    [c_statics] are the static values set on END (SetStaticValue).
-   The struct environment is generated by the harness from the Go declarations (reflect)
-   and defined in the header of the cases file.
+   The struct environment and the table of promoted fields (embedded structs) are generated
+   by the harness from the Go declarations (reflect) and defined in the header of the cases
+   file.  The paths of a case are spelled as they were declared (promoted fields under their
+   short names); the model elaborates them (Model/FieldMapPromote.v: [expand]) and everything
+   below works on the elaborated declarations [x_decls] / [x_statics] / [x_unit].
 
    Observed (canonicalised by the harness):
      compile : accepted | overlap error | static (type) error | any other error
@@ -13,7 +16,7 @@
      stream  : not run | chunk values | error | panic   (chunks compared as a multiset: the
                                                          fan-in merge interleaves arbitrarily)
    Error messages are never compared. *)
-From Eino Require Import Base.Util Base.FMUniverse Model.FieldMap Model.FieldMapOwn.
+From Eino Require Import Base.Util Base.FMUniverse Model.FieldMap Model.FieldMapOwn Model.FieldMapPromote.
 
 Inductive cobs : Type := OAccept | OOverlap | OStatic | OOther.
 Inductive robs : Type := RNone | RVal (v : val) | RErr | RPanic.
@@ -21,9 +24,10 @@ Inductive sobs : Type := SNone | SVals (vs : list val) | SErr | SPanic.
 
 Record ccase : Type := MkCase {
   c_env : senv;
+  c_penv : penv;
   c_T : ty;
-  c_decls : list decl;
-  c_statics : statics;
+  r_decls : list decl;          (* as declared *)
+  r_statics : statics;
   c_srcs : list val;
   c_chunks : list (list val);
   o_compile : cobs;
@@ -34,9 +38,14 @@ Record ccase : Type := MkCase {
      map c_unit, 16 times on fresh copies; o_unit = the distinct (result, "a mapped value was
      modified") observed.  Overlapping keys are allowed here: the outcome then depends on Go's
      map iteration order, and must be the model's outcome for SOME order of the keys. *)
-  c_unit : fmap;
+  r_unit : fmap;
   o_unit : list (robs * bool)
 }.
+
+(* the elaborated case: promoted field names spelled out (canonicalTargetPath / FieldByName) *)
+Definition c_decls (c : ccase) : list decl := expand_decls (c_env c) (c_penv c) (c_T c) (r_decls c).
+Definition c_statics (c : ccase) : statics := expand_keys (c_env c) (c_penv c) (c_T c) (r_statics c).
+Definition c_unit (c : ccase) : fmap := expand_keys (c_env c) (c_penv c) (c_T c) (r_unit c).
 
 Definition D (t : ty) (ms : list mapping) : decl := {| d_ty := t; d_maps := ms |}.
 
@@ -212,8 +221,11 @@ Definition wf_good (c : ccase) : bool :=
       match o_invoke c, o_stream c with RNone, SNone => true | _, _ => false end
   end.
 
+(* compile_x / run_invoke_x / run_stream_x / convert_to_x of Model/FieldMapPromote.v are, by
+   definition, the core functions on the elaborated case used above *)
 Definition good (c : ccase) : bool :=
-  match c_unit c with [] => wf_good c | _ => unit_good c end.
+  penv_wf (c_env c) (c_penv c) &&
+  match r_unit c with [] => wf_good c | _ => unit_good c end.
 
 Definition bad (c : ccase) : bool := negb (good c).
 Definition mismatches (cs : list ccase) : list nat := mismatches_from bad 0 cs.
